@@ -114,5 +114,5 @@ M("C15", "threshold N instead of N-1", SVD, "N = X.shape[0] - 1", "N = X.shape[0
 M("C15", "cross PCA without seed", "xeofs/cross/base_model_cross_set.py", "            feature_name=feature_name[0],\n            random_state=random_state,\n        )", "            feature_name=feature_name[0],\n        )", "RNG.ctor")
 M("C15", "kwargs sets differ", SVD, 'solver_kwargs.setdefault("n_power_iter", 4)', 'solver_kwargs.setdefault("n_power_iter", 4)\n            solver_kwargs.setdefault("n_oversamples", 10)', "SIB.kwargs")
 B("C15", "solver_kwargs copied first", DEC, "            solver_kwargs = self.solver_kwargs | {\n                \"n_components\": self.n_modes_precompute,", "            user = self.solver_kwargs\n            solver_kwargs = user | {\n                \"n_components\": self.n_modes_precompute,")
-B("C15", "sign multiplier renamed", DEC, "sign_multiplier", "flip", count=5)
+B("C15", "sign multiplier renamed", DEC, "", "", edits=[("            sign_multiplier = get_deterministic", "            flip = get_deterministic"), ("VT *= sign_multiplier", "VT *= flip"), ("U *= sign_multiplier", "U *= flip")])
 B("C15", "threshold with hoisted count", SVD, "            n_modes_required = (\n                self.n_modes_precompute - (cum_expvar >= self.n_modes).sum() + 1\n            )", "            n_modes_required = (\n                1 + self.n_modes_precompute - (cum_expvar >= self.n_modes).sum()\n            )")
